@@ -120,7 +120,8 @@ def judge_groups(ctx: Ctx, groups, clauses=CLAUSES, kind="c03", key_prefix=""):
                       "pairs": [["".join(map(chr, k)), "".join(map(chr, v))] for k, v in ln["q"]["pairs"]]},
                 "rules_text": [rt.rule_string(x) for x in cfg["rules"]], "observed": ln["r"]["kind"],
                 "observed_rule": ln["r"]["rule"]}
-        ctx.violation(key_prefix + key_of(r["clause"], ln), r["clause"], case, kind=kind)
+        suffix = rt.root_key_suffix(cfg) if r["clause"] == "OnBoundHost" else ""
+        ctx.violation(key_prefix + key_of(r["clause"], ln) + suffix, r["clause"], case, kind=kind)
     return lines
 
 
